@@ -194,4 +194,9 @@ def check(ck: Check) -> None:
     ck.run("R13.2", "single writers (typed who-may-write, whole repository)", lambda: r13_2(ck))
     ck.run("R13.3", "eviction on every head change", lambda: r13_3(ck))
     ck.run("R13.4", "duplicate suppression before admission", lambda: r13_4(ck))
+    from .common import rule_eq
+    ck.run("R13.5", "`transaction in pool` and reference clashes compare by content", lambda: (
+        rule_eq(ck, "R13.5", "skepticoin.datatypes.Transaction", ["inputs", "outputs"], "pool membership compares whole transactions"),
+        rule_eq(ck, "R13.5", "skepticoin.datatypes.Input", ["output_reference", "signature"], ""),
+        rule_eq(ck, "R13.5", "skepticoin.datatypes.OutputReference", ["hash", "index"], "conflicting spends are detected by reference equality")))
     ck.assume("thread interleavings beyond 'both writers hold self.lock' are not analysed")
